@@ -18,10 +18,13 @@ structure FieldSpec where
   kind : FKind := .nat
   deriving Repr
 
-def FieldSpec.render (e : FieldSpec) (bs : List UInt8) : Val :=
+/-- How a raw field value is reported: as a number, or as a flag (1 = true). -/
+def FieldSpec.renderVal (e : FieldSpec) (v : Nat) : Val :=
   match e.kind with
-  | .nat => .nat (field bs e.off e.w)
-  | .flag => .bool (field bs e.off e.w == 1)
+  | .nat => .nat v
+  | .flag => .bool (v == 1)
+
+def FieldSpec.render (e : FieldSpec) (bs : List UInt8) : Val := e.renderVal (field bs e.off e.w)
 
 def common : List FieldSpec := [⟨.message_type, 0, 6, .nat⟩, ⟨.repeat_indicator, 6, 2, .nat⟩, ⟨.mmsi, 8, 30, .nat⟩]
 
